@@ -74,6 +74,9 @@ def run(ctx):
         if key == (4, 80, False):
             printers.append(("module-level prettify", I.pretty.prettify))
         for label, sp in printers:
+            if rng.random() < 0.12:
+                trees.poison(rng, d, sp)      # a call that gives up half-way must leave nothing behind
+                ctx.count("history: call that fails half-way")
             if sp(o) != out:
                 ctx.fail("%s: output differs from a fresh printer's (history dependence)" % label, info)
             for _ in range(2):
